@@ -564,9 +564,9 @@ def main(argv=None):
     WORKERS, DEADLINE = a.workers, a.deadline
     T.install_signal_handlers()
     t0 = time.monotonic()
-    if not a.no_build:
-        b = T.build_binaries()
-        sys.stderr.write("[t2] binaries built from /repo working tree in %.1fs\n" % b["seconds"])
+    b = T.build_binaries(build=not a.no_build)
+    sys.stderr.write("[t2] binaries %s in %.1fs -> %s\n" % ("snapshotted (no build)" if a.no_build else "built from /repo working tree",
+                                                            b["seconds"], os.path.dirname(b["client"])))
     T.certs()
     results = SUITES[a.suite](a.tier, a.seed, a.only)
     out = a.out or "%s/results-%s-%s-seed%d.json" % (T.CACHE, a.suite, a.tier, a.seed)
